@@ -885,6 +885,17 @@ func genC08(g *Gen) {
 		}
 		return o
 	}
+	// 4b. COMPLETE values whose size field has bit 15 (or bit 23) set: every skipper must read the
+	//     4-byte size as one big-endian word (no sign extension of a half)
+	for _, n := range []int{0x7fff, 0x8000, 0x8001, 40000, 0xffff, 0x10000, 0x18000} {
+		body := make([]byte, n)
+		for i := range body {
+			body[i] = byte(i*7 + 1)
+		}
+		g.c08Add("size/complete-string", 11, cat(be(uint32(n)), body, []byte{9}), scripts[0], 0, -1)
+		g.c08Add("size/complete-list-bool", 15, cat([]byte{2}, be(uint32(n)), make([]byte, n), []byte{9}), scripts[1], 0, -1)
+		g.c08Add("size/complete-struct-str", 12, cat([]byte{11, 0, 1}, be(uint32(n)), body, []byte{0, 9}), scripts[0], 0, -1)
+	}
 	for _, c := range counts {
 		for ti, tail := range tails {
 			g.c08Add("size/string", 11, cat(be(c), tail), scripts[ti%2], 0, -1)
